@@ -118,21 +118,57 @@ func Discharge(o *Obligation, opts SolveOpts) *Result {
 			ch <- ans{s.Name, a, t, out}
 		}(s)
 	}
+	// an obligation guarded by a merged block condition is, in parallel, decided path by path (see splitByPath);
+	// the split starts only when the plain query has not been answered within two seconds
+	type splitOut struct{ status, by string }
+	splitCh := make(chan splitOut, 1)
+	splitRunning := false
+	if !o.Cover && !opts.NoSplit && splittable(o, q) {
+		splitRunning = true
+		go func() {
+			select {
+			case <-time.After(2 * time.Second):
+				st, by := splitByPath(ctx, o, q, file, opts, res)
+				splitCh <- splitOut{st, by}
+			case <-ctx.Done():
+				splitCh <- splitOut{}
+			}
+		}()
+	}
 	var sat, unsat string
-	for i := 0; i < len(Solvers); i++ {
-		a := <-ch
-		res.Answers[a.s] = a.a
-		res.Times[a.s] = a.t
-		if a.a == "sat" && sat == "" {
-			sat = a.s
+	var split splitOut
+	pending := len(Solvers)
+	for pending > 0 || splitRunning {
+		select {
+		case a := <-ch:
+			pending--
+			resMu.Lock()
+			res.Answers[a.s] = a.a
+			res.Times[a.s] = a.t
+			resMu.Unlock()
+			if a.a == "sat" && sat == "" {
+				sat = a.s
+			}
+			if a.a == "unsat" && unsat == "" {
+				unsat = a.s
+			}
+		case so := <-splitCh:
+			splitRunning = false
+			split = so
 		}
-		if a.a == "unsat" && unsat == "" {
-			unsat = a.s
-		}
-		if !opts.WaitAll && (a.a == "sat" || a.a == "unsat") {
+		if !opts.WaitAll && (sat != "" || unsat != "" || split.status != "") {
 			cancel()
 			break
 		}
+	}
+	if sat == "" && unsat == "" && split.status != "" {
+		// decided by the path split
+		res.Wall = time.Since(start).Seconds()
+		res.Status, res.By = split.status, split.by
+		if !opts.Keep && res.Status == "discharged" {
+			_ = os.Remove(file)
+		}
+		return res
 	}
 	res.Wall = time.Since(start).Seconds()
 	switch {
@@ -158,9 +194,6 @@ func Discharge(o *Obligation, opts SolveOpts) *Result {
 		}
 	default:
 		res.Status = "undecided"
-		if !opts.NoSplit {
-			splitByPath(o, q, file, opts, res)
-		}
 	}
 	if !opts.Keep && (res.Status == "discharged" || res.Status == "cover-ok") {
 		_ = os.Remove(file)
@@ -198,19 +231,20 @@ func DischargeAll(obls []*Obligation, opts SolveOpts) []*Result {
 	return out
 }
 
-// splitByPath: an undecided obligation whose guard is a merged block condition bc = (or c1 .. cn) is decided
-// path by path: facts /\ not goal /\ ci for every i. Sound and complete w.r.t. the original query because
-// bc <=> (or ci) is itself one of the facts and the negated goal implies bc. All parts unsat => discharged;
-// some part sat => that model satisfies the original query too => failed (model kept for replay).
-func splitByPath(o *Obligation, q, file string, opts SolveOpts, res *Result) {
+// splittable: the obligation's guard is a merged block condition bc = (or c1 .. cn) defined among the facts.
+func splittable(o *Obligation, q string) bool {
+	return len(splitParts(o, q)) >= 2
+}
+
+func splitParts(o *Obligation, q string) []string {
 	cond := strings.TrimSpace(o.Cond)
 	if !strings.HasPrefix(cond, "bc!") || strings.ContainsAny(cond, " ()") {
-		return
+		return nil
 	}
 	def := "(assert (= " + cond + " (or "
 	i := strings.Index(q, def)
 	if i < 0 {
-		return
+		return nil
 	}
 	rest := q[i+len(def):]
 	if nl := strings.IndexByte(rest, '\n'); nl >= 0 {
@@ -218,7 +252,21 @@ func splitByPath(o *Obligation, q, file string, opts SolveOpts, res *Result) {
 	}
 	parts := topLevelTerms(rest)
 	if len(parts) < 2 || len(parts) > 16 {
-		return
+		return nil
+	}
+	return parts
+}
+
+var resMu sync.Mutex
+
+// splitByPath: an obligation whose guard is a merged block condition bc = (or c1 .. cn) is decided
+// path by path: facts /\ not goal /\ ci for every i. Sound and complete w.r.t. the original query because
+// bc <=> (or ci) is itself one of the facts and the negated goal implies bc. All parts unsat => discharged;
+// some part sat => that model satisfies the original query too => failed (model kept for replay).
+func splitByPath(ctx context.Context, o *Obligation, q, file string, opts SolveOpts, res *Result) (string, string) {
+	parts := splitParts(o, q)
+	if parts == nil {
+		return "", ""
 	}
 	type sub struct {
 		ans, by string
@@ -227,13 +275,14 @@ func splitByPath(o *Obligation, q, file string, opts SolveOpts, res *Result) {
 	subs := make([]sub, len(parts))
 	var wg sync.WaitGroup
 	base := strings.TrimSuffix(strings.TrimSpace(q), "(check-sat)")
+	satFile := ""
 	for k, c := range parts {
 		wg.Add(1)
 		go func(k int, c string) {
 			defer wg.Done()
 			f := fmt.Sprintf("%s.split%d.smt2", strings.TrimSuffix(file, ".smt2"), k)
 			_ = os.WriteFile(f, []byte(base+"(assert "+c+")\n(check-sat)\n"), 0644)
-			ctx, cancel := context.WithCancel(context.Background())
+			cctx, cancel := context.WithCancel(ctx)
 			defer cancel()
 			type ans struct {
 				s, a string
@@ -242,7 +291,7 @@ func splitByPath(o *Obligation, q, file string, opts SolveOpts, res *Result) {
 			ch := make(chan ans, len(Solvers))
 			for _, s := range Solvers {
 				go func(s Solver) {
-					a, t, _ := runSolver(ctx, s, f, opts.Timeout, opts.Seed)
+					a, t, _ := runSolver(cctx, s, f, opts.Timeout, opts.Seed)
 					ch <- ans{s.Name, a, t}
 				}(s)
 			}
@@ -254,32 +303,38 @@ func splitByPath(o *Obligation, q, file string, opts SolveOpts, res *Result) {
 					break
 				}
 			}
-			if subs[k].ans == "unsat" && !opts.Keep {
-				_ = os.Remove(f)
-			}
 			if subs[k].ans == "sat" {
-				res.QueryFile = f
+				resMu.Lock()
+				satFile = f
+				resMu.Unlock()
+			} else if !opts.Keep || subs[k].ans == "" {
+				_ = os.Remove(f)
 			}
 		}(k, c)
 	}
 	wg.Wait()
 	all := true
+	resMu.Lock()
+	defer resMu.Unlock()
 	for k, sb := range subs {
 		res.Answers[fmt.Sprintf("path%d", k)] = sb.ans + ":" + sb.by
 		if sb.ans == "" {
 			res.Answers[fmt.Sprintf("path%d", k)] = "timeout"
 		}
-		if sb.ans == "sat" {
-			res.Status, res.By = "failed", "path-split:"+sb.by
-			return
-		}
 		if sb.ans != "unsat" {
 			all = false
 		}
 	}
-	if all {
-		res.Status, res.By = "discharged", fmt.Sprintf("path-split/%d:%s", len(parts), subs[0].by)
+	for _, sb := range subs {
+		if sb.ans == "sat" {
+			res.QueryFile = satFile
+			return "failed", "path-split:" + sb.by
+		}
 	}
+	if all {
+		return "discharged", fmt.Sprintf("path-split/%d:%s", len(parts), subs[0].by)
+	}
+	return "", ""
 }
 
 // topLevelTerms splits "t1 t2 ... tn)))" into its first-level s-expressions, stopping at the closing parenthesis
